@@ -17,7 +17,7 @@ pub struct Pair {
 pub fn meta() -> PropMeta {
   PropMeta {
     id: "C08",
-    rule: "exhaustive: depth_max 1, one base cell: the 83 BMOCs (the base cell absent / partial / full, or split in 4 children each absent / partial / full), all 6 889 ordered pairs (quick); two base cells: 6 889 BMOCs, all 47 458 321 ordered pairs (thorough); depth_max 2 in one base cell for not (thorough); random: pairs of mixed-flag BMOCs, depth_max 0..=29 equal or different, cells clustered around shared anchors, unpacked shapes included; non-trivial = a partial cell of one operand strictly contains or is strictly contained in a cell of the other; distinct by the two cell lists",
+    rule: "exhaustive: depth_max 1, one base cell: the 83 BMOCs (the base cell absent / partial / full, or split in 4 children each absent / partial / full), all 6 889 ordered pairs (quick); two base cells: 6 889 BMOCs, all 47 458 321 ordered pairs (thorough); random: pairs of mixed-flag BMOCs, depth_max 0..=29 equal or different, cells clustered around shared anchors, unpacked shapes included; non-trivial = a partial cell of one operand strictly contains or is strictly contained in a cell of the other; distinct by the two cell lists",
     assumptions: vec!["reference = pointwise three-valued operators on the leaf-interval model: not: 0<->2, 1->1; and = min; or = max; xor: (0,x)->x, (x,0)->x, (2,2)->0, else 1".into()],
   }
 }
